@@ -19,7 +19,7 @@ import (
 
 func c02Config() world.Config {
 	return world.Config{
-		Accounts: []string{"U", "H", "H2"},
+		Accounts: []string{"U", "H", "H2", "L1", "L2"},
 		Storage:  func(p *storagetypes.Params) { p.CollateralPrice = 1000; p.CheckWindow = 1000 },
 	}
 }
@@ -293,6 +293,72 @@ func c02TwoFileCase(I, W, s, d int64, swap bool, windows int) mc.Case {
 	return c
 }
 
+// (5) the honest prover shares a file with two provers that stop proving, at every position in the prover list
+func c02CoProverCase(I, W, s int64, pos int) mc.Case {
+	order := []string{"L1", "L2"}
+	order = append(order[:pos], append([]string{"H"}, order[pos:]...)...)
+	c := mc.Case{Desc: fmt.Sprintf("coprovers|I=%d|W=%d|start=%d|list=%s", I, W, s, strings.Join(order, ","))}
+	f := c02WinFile
+	c.Prep = func(env world.Env) {
+		w := env.W()
+		setStorageParams(env, func(p *storagetypes.Params) { p.ChunkSize, p.ProofWindow, p.CheckWindow = 4, I, W })
+		for env.Ctx().BlockHeight() < s {
+			if bp := env.NextBlock(6 * time.Second); bp != nil {
+				panic(bp.Value)
+			}
+		}
+		u := w.A("U").Bech
+		mustOK(env.Deliver(storagetypes.NewMsgPostFile(u, f.merkle, int64(len(f.data)), 0, 0, 3, "{}")), "PostFile")
+		for _, x := range order {
+			item, hl := f.proofFor(0)
+			if ok, e := postProofOK(w, env.Deliver(storagetypes.NewMsgPostProof(w.A(x).Bech, f.merkle, u, s, item, hl, 0))); !ok {
+				panic("join proof rejected: " + e)
+			}
+		}
+	}
+	for o := int64(0); o < I; o++ {
+		c.Subs = append(c.Subs, fmt.Sprint(o))
+	}
+	c.Sub = func(env world.Env, sub string) mc.CaseResult {
+		w := env.W()
+		cr := mc.CaseResult{Class: "kept", Nontrivial: true}
+		u, h := w.A("U").Bech, w.A("H").Bech
+		var o int64
+		fmt.Sscan(sub, &o)
+		burn0, _ := burnOf(w, env.Ctx(), "H")
+		for env.Ctx().BlockHeight() < s+5*I {
+			if bp := env.NextBlock(6 * time.Second); bp != nil {
+				cr.Viols = append(cr.Viols, viol("no-panic", "block-panic", "%s", bp.Value))
+				return cr
+			}
+			ht := env.Ctx().BlockHeight()
+			file, found := getFile(w, env.Ctx(), f.merkle, u, s)
+			if !found || !proverListed(file, h) {
+				cr.Viols = append(cr.Viols, viol("honest-prover-never-removed", "removed next-to-lapsing-provers", "prover list %s (only H keeps proving): H was removed by the block at height %d", strings.Join(order, ","), ht))
+				return cr
+			}
+			if b, _ := burnOf(w, env.Ctx(), "H"); b != burn0 {
+				cr.Viols = append(cr.Viols, viol("honest-prover-never-burned", "burned next-to-lapsing-provers", "burn counter %d -> %d at height %d", burn0, b, ht))
+				return cr
+			}
+			if ht >= s+I && (ht-s)%I == o {
+				pr, ok := w.App.StorageKeeper.GetProof(env.Ctx(), h, f.merkle, u, s)
+				if !ok {
+					cr.Viols = append(cr.Viols, viol("honest-prover-never-removed", "record-gone next-to-lapsing-provers", "height %d: the proof record of H is gone", ht))
+					return cr
+				}
+				item, hl := f.proofFor(int(pr.ChunkToProve))
+				if ok, e := postProofOK(w, env.Deliver(storagetypes.NewMsgPostProof(h, f.merkle, u, s, item, hl, pr.ChunkToProve))); !ok {
+					cr.Viols = append(cr.Viols, viol("honest-proof-accepted", "rejected-in-window next-to-lapsing-provers", "height %d: %s", ht, e))
+					return cr
+				}
+			}
+		}
+		return cr
+	}
+	return c
+}
+
 // (4) the honest prover also owns a file of its own, whose prover stops proving: what happens to that prover must not
 // touch the honest one
 func c02OwnerLapseCase(I, W, s int64) mc.Case {
@@ -368,6 +434,7 @@ func c02Enum(thorough bool) mc.Enum {
 			e.Cases = append(e.Cases, c02ChallengeCase(size, chunk))
 		}
 	}
+	e.Cases = append(e.Cases, c02ChallengeCase(40, 1), c02ChallengeCase(130, 1)) // challenged indices with two and three digits
 	Is := []int64{2, 3, 4}
 	windows := 3
 	if thorough {
@@ -391,6 +458,9 @@ func c02Enum(thorough bool) mc.Enum {
 		for _, W := range []int64{2, 3, 5} {
 			for s := int64(2); s < 2+W; s++ {
 				e.Cases = append(e.Cases, c02OwnerLapseCase(I, W, s))
+				for pos := 0; pos <= 2; pos++ {
+					e.Cases = append(e.Cases, c02CoProverCase(I, W, s, pos))
+				}
 				for d := int64(1); d < I; d++ {
 					for _, swap := range []bool{false, true} {
 						e.Cases = append(e.Cases, c02TwoFileCase(I, W, s, d, swap, windows))
@@ -405,7 +475,7 @@ func c02Enum(thorough bool) mc.Enum {
 func init() {
 	CaseReplayers["C02/honest-prover"] = func(r *mc.Run, c string) { r.ReplayCase(c02Enum(true), c) }
 	Props["C02"] = Prop{Level: "exploration", Run: func(r *mc.Run, tier string) {
-		r.Rules = append(r.Rules, "(1) every file size 1..4c+1 for chunk size c in {1,2,3,4,5,8} (tree cross-checked with utils.BuildTree) x 64 consecutive challenge seeds (block gas) x 3 prove/re-challenge rounds on the real PostFile/PostProof; (2) proof window I in {2,3} (thorough {2,3,4,5}) x check window W in {2,3,4,5,7} x every file start phase x every join height in the first window x every placement vector of one proof per window over 3 (thorough 4) windows, one block at a time through the whole application's BeginBlocker/EndBlocker; (3) two files with out-of-phase proof windows (every phase difference, both walk orders), each with its own honest prover on the same schedules; (4) the honest prover also owns a file whose prover stops proving; one evaluation = one (configuration, seed or placement vector) execution")
+		r.Rules = append(r.Rules, "(1) every file size 1..4c+1 for chunk size c in {1,2,3,4,5,8} (tree cross-checked with utils.BuildTree) x 64 consecutive challenge seeds (block gas) x 3 prove/re-challenge rounds on the real PostFile/PostProof; (2) proof window I in {2,3} (thorough {2,3,4,5}) x check window W in {2,3,4,5,7} x every file start phase x every join height in the first window x every placement vector of one proof per window over 3 (thorough 4) windows, one block at a time through the whole application's BeginBlocker/EndBlocker; (3) two files with out-of-phase proof windows (every phase difference, both walk orders), each with its own honest prover on the same schedules; (4) the honest prover also owns a file whose prover stops proving; (5) the honest prover shares a file with two provers that stop proving, at every list position; one evaluation = one (configuration, seed or placement vector) execution")
 		r.Assumptions = append(r.Assumptions, "behaviour of the window predicates depends only on (h-start) mod I and h mod W, so one period of start phases covers every phase relation", "SHA-256/SHA3 collision freedom")
 		dl := time.Now().Add(70 * time.Second)
 		if tier == "thorough" {
